@@ -1,0 +1,7 @@
+//go:build !verif
+
+package lisp
+
+// verifPoint is a simulation yield point.  Without the `verif` build tag it
+// is an empty function that the compiler inlines away.
+func verifPoint(point, detail string) {}
